@@ -74,6 +74,38 @@ func Replay(path string) int {
 		fmt.Fprintln(os.Stderr, "unknown scenario", f.Scenario)
 		return 2
 	}
+	if os.Getenv("VERIF_STATES") != "" {
+		// step by hand and print the subscriptions of every connection after each action
+		w := mc.NewWorld(sc)
+		for i := 0; ; i++ {
+			en := w.Enabled()
+			if len(en) == 0 {
+				break
+			}
+			k := 0
+			if i < len(f.Schedule) {
+				k = -1
+				for j, a := range en {
+					if a.Name == f.Schedule[i] {
+						k = j
+					}
+				}
+				if k < 0 {
+					fmt.Printf("diverged at action %d\n", i)
+					break
+				}
+			}
+			w.Do(en[k])
+			fmt.Printf("  [%d %s]", i+1, en[k].Name)
+			for _, cs := range w.ConnSnaps() {
+				for _, sb := range cs.Subs {
+					fmt.Printf(" %s:st%d,d%d,i%d,is%d,q%d", sb.RID, sb.State, sb.Direct, sb.Indirect, sb.IndirectSent, sb.QueueFlag)
+				}
+			}
+			fmt.Println()
+		}
+		w.Close()
+	}
 	x := mc.RunOnce(sc, f.Schedule, mc.RunOpts{KeepTrace: true})
 	fmt.Printf("scenario %s (%d actions, diverged=%v)\n", sc.Name, len(x.Choices), x.Diverged)
 	for i, n := range x.Choices {
